@@ -68,7 +68,7 @@ Fixpoint enodupb (l : list edge) : bool :=
 Fixpoint reach_le (k : nat) (g : dag) (a b : id) : bool :=
   match k with
   | 0 => Nat.eqb a b
-  | S k' => Nat.eqb a b || existsb (fun c => reach_le k' g c b) (children g a)
+  | S k' => if Nat.eqb a b then true else existsb (fun c => reach_le k' g c b) (children g a)
   end.
 Definition reachb (g : dag) (a b : id) : bool := reach_le (dsize g) g a b.           (* a ->* b *)
 Definition reach_plusb (g : dag) (a b : id) : bool :=                                  (* a ->+ b *)
